@@ -142,8 +142,12 @@ C02_CookieAnswered(B, k) ==
   LET h == H(B, k) IN
   \A i \in Idx(h, IsAuthCookieRx) : IF i < Len(h) THEN IsTx(h[i+1], "EncryptionRequest") ELSE ~Ended(B[k])
 \* without an acceptable cookie every grant needs the service's verdict first
+\* ... and "first" means the verdict has been RETURNED: where the harness reports when each service answered (rets: service, number of
+\* history entries at that moment), every grant lies after the answer -- a request that was given up on has no answer at all
 C02_VerdictRequired(B, k) ==
-  AcceptedCookieIdx(B, k) = {} => \A i \in Grants(B, k) : \E j \in AuthOkIdx(H(B, k)) : j < i
+  AcceptedCookieIdx(B, k) = {} =>
+      /\ \A i \in Grants(B, k) : \E j \in AuthOkIdx(H(B, k)) : j < i
+      /\ Has(B[k], "rets") => \A i \in Grants(B, k) : \E r \in 1..Len(B[k].rets) : B[k].rets[r].a = "auth" /\ B[k].rets[r].at < i
 \* with one, the identity in use is exactly the one inside the cookie
 C02_IdentityFromCookie(B, k) ==
   LET h == H(B, k)  ck == AcceptedCookieIdx(B, k) IN
